@@ -13,6 +13,16 @@ PARTIAL = [
     "C07_align_partial / C07_depth: 'every statement of a conforming file starts at column 1 and ends at a line end' and 'nesting depth is back at file level after each function' depend on the primaries' jumps and scope handling (unported rules): checked by the oracle on the observed trace of every generated program, not proved",
 ]
 
+# braces balanced by construction; comments / empty lines / directives between a header line and its brace
+SHAPES = [
+    ("sh1.h", "#ifndef SH1_H\n# define SH1_H\n\ntypedef struct s_pt\n// why\n{\n\tint\tx;\n}\tt_pt;\n\nint\tf(void);\nint\tg(void);\n\n#endif\n"),
+    ("sh2.h", "#ifndef SH2_H\n# define SH2_H\n\ntypedef enum e_k\n\n{\n\tAA,\n\tBB\n}\tt_k;\n\nint\tf(void);\n\n#endif\n"),
+    ("sh3.c", "int\tf(int a)\n/* note */\n\n\n{\n\treturn (a);\n}\n\nint\tg(int a)\n{\n\treturn (a);\n}\n"),
+    ("sh4.c", "int\tf(int a)\n{\n\twhile (a)\n\t// c\n\t{\n\t\ta--;\n\t}\n\tif (a)\n\n\t{\n\t\ta++;\n\t}\n\treturn (a);\n}\n\nint\tg_z;\n"),
+    ("sh5.c", "struct s_a\n#define X 1\n{\n\tint\tx;\n};\n\nint\tf(void)\n{\n\treturn (X);\n}\n"),
+    ("sh6.c", "int\tf(int a)\n{\n\tif (a)\n\t\treturn (1);\n\telse c = 2;\n\telse\n\t\ta = 2;\n\treturn (a);\n}\n"),
+]
+
 FRAGMENTS = [") )", "42", "\"lost\"", "1 + 2", ")", "+", "'x'", "]", "} }", ", ,", "x y z", "-> .", "= =", "? :", "[ 3"]
 
 
@@ -73,6 +83,25 @@ def run(res, tier, br, model_ok=True, search=False):
     progs = families.programs(rng, 150 if big else 30)
     viol = families.violating(rng, progs[: (80 if big else 10)], per_prog=2)
     cases = [(p.name, p.text, p) for p in progs] + [(p.name, t, None) for p, op, site, t, line in viol]
+    # violating programs whose number of statements is known by construction: instructions joined on one line are
+    # still examined one by one (`if (x) y = 1;`, `else y = 1;` keep the count, `a = 1; b++;` adds one)
+    from gen import mutate
+    counted = []
+    for oid, delta in (("V43_body_on_control_line", 0), ("V43b_body_on_else_line", 0), ("V44_two_instructions", 1)):
+        op = mutate.BY_ID[oid]
+        done = 0
+        for p in progs:
+            if done >= (12 if big else 3) or getattr(p, "comments", None):
+                continue
+            try:
+                sites = op.sites(p)
+                if not sites:
+                    continue
+                text, line = op.apply(p, rng.choice(sites))
+            except Exception:
+                continue
+            done += 1
+            counted.append((p.name, text, p.text.count("\n") - p.productions.get("Stmt.while_empty", 0) + delta, oid))
     cases += [(n, s, None) for n, s in (families.repo_samples() if big else families.repo_samples()[::5])]
     # unrecognisable fragments at statement boundaries, with / without trailing newline
     frag_cases = []
@@ -104,6 +133,26 @@ def run(res, tier, br, model_ok=True, search=False):
             if tr["outcome"] in ("ok", "fatal") and tr["n"] is not None and model_ok:
                 reqs.append({"op": "engine", "n": tr["n"], "debug": debug, "decisions": decisions(tr)})
                 metas.append((name, src, tr))
+    for name, text, want, oid in counted:
+        tr = run_traced(name, text)
+        res.count("counted", 1)
+        if tr["outcome"] == "ok" and len(tr["iterations"]) != want:
+            res.report("violating:statement-count", f"{name} [{oid}]: {len(tr['iterations'])} statements examined, {want} by construction",
+                       {"kind": "trace", "name": name, "src": text})
+    for name, text in SHAPES:
+        tr = run_traced(name, text)
+        res.count("shapes", 1)
+        oracle_trace(res, name, text, tr)
+        if tr["outcome"] == "ok" and tr.get("final_scope") != "GlobalScope":
+            res.report("depth:not-back-at-file-level", f"{name}: scope at end of file is {tr.get('final_scope')}", {"kind": "trace", "name": name, "src": text})
+        if tr["outcome"] == "ok":
+            # after a closing brace in column 1 (end of a function / a type definition) the depth is 0
+            its = tr["iterations"]
+            for k, it in enumerate(its[:-1]):
+                if it["decision"] and it["decision"][0] == "IsBlockEnd" and it["first"] and it["first"][0] == "RBRACE" and it["first"][2] == 1 and its[k + 1]["lvl"] != 0:
+                    res.report("depth:not-back-at-file-level", f"{name}: nesting depth {its[k + 1]['lvl']} after the block closed on line {it['first'][1]}",
+                               {"kind": "trace", "name": name, "src": text})
+                    break
     if model_ok and reqs:
         replies = Driver().batch(reqs)
         nbad, first = 0, None
